@@ -1,7 +1,1526 @@
-//! C09 — not implemented yet (stub).
-use crate::engine::Args;
+//! C09 — the main process's verdict to a client matches what the workers did (DESIGN §4 C09).
+//!
+//! Rig: a real `CommandHub` (`run()` in its own thread, `worker_timeout = 1` s) on a unix socket in
+//! a private temp dir, W fake workers registered through `Server::register_worker` (each one end of
+//! a socket pair driven by a harness thread that follows a generated script; their pid is a
+//! harmless `sleep` child because `close_worker` SIGKILLs it), K real clients speaking the
+//! length-prefixed protobuf protocol on the command socket. The harness ends use their own framing
+//! code (8-byte little-endian total length + prost payload), not sozu's `Channel`.
+//!
+//! Oracle: per client request exactly one final `Response` within worker_timeout + 3 s, about the
+//! right request, whose status is Ok only if every worker that was alive at dispatch answered it Ok
+//! in time, and Failure if one of them failed / stayed silent / disconnected; the hub survives,
+//! answers a final `Status` truthfully and stops on the closing stop verb.
 
-pub fn run(_args: &Args) -> i32 {
-    println!("INCONCLUSIVE: C09 has no check yet");
-    2
+use std::{
+    collections::{BTreeMap, BinaryHeap},
+    io::{Read, Write},
+    os::{fd::AsRawFd, unix::net::UnixStream},
+    path::Path,
+    process::{Child, Command, Stdio},
+    sync::{
+        Arc, Mutex,
+        atomic::{AtomicBool, AtomicUsize, Ordering},
+        mpsc,
+    },
+    time::{Duration, Instant},
+};
+
+use proptest::prelude::*;
+use prost::Message;
+use serde::{Deserialize, Serialize};
+use sozu::command::server::CommandHub;
+use sozu_command_lib::{
+    channel::Channel,
+    config::Config,
+    proto::command::{
+        AddBackend, Cluster, ClusterHashes, ClusterInformation, ClusterInformations, HardStop,
+        QueryClustersHashes, Request, Response, ResponseContent, ResponseStatus, RunState,
+        SocketAddress, SoftStop, Status, WorkerRequest, WorkerResponse, request::RequestType,
+        response_content::ContentType,
+    },
+    scm_socket::ScmSocket,
+};
+
+use crate::engine::{self, Args, CaseReport, CheckResult, Evidence, Failure, pick_idx};
+
+// ---------------------------------------------------------------------------
+// timing constants (everything scheduled stays well away from the 1 s worker timeout)
+
+const WORKER_TIMEOUT_S: u64 = 1;
+/// a final answer must arrive within worker_timeout + 3 s
+const FINAL_DEADLINE: Duration = Duration::from_millis(WORKER_TIMEOUT_S * 1000 + 3000);
+/// keep reading that long after a final answer to catch a second one
+const SECOND_FINAL_WINDOW: Duration = Duration::from_millis(300);
+/// generated in-time delays
+const DELAYS_MS: [u64; 3] = [0, 20, 60];
+/// a late answer comes this long after the request reached the worker (timeout + 1.5 s)
+const LATE_MS: u64 = 2500;
+/// an in-time answer that left the worker later than this after the client sent the request means the
+/// harness itself was starved: the request is not judged
+const SLACK_LIMIT: Duration = Duration::from_millis(600);
+/// a worker whose channel closed at least this long before a request was sent is dead at dispatch
+const DEAD_MARGIN: Duration = Duration::from_millis(300);
+
+// ---------------------------------------------------------------------------
+// the case
+
+#[derive(Clone, Copy, Debug, PartialEq, Eq, PartialOrd, Ord, Serialize, Deserialize)]
+pub enum Beh {
+    Ok,
+    Failure,
+    /// never answers this request
+    Silent,
+    /// drops its channel when the request arrives
+    CloseChannel,
+    /// answers Ok twice
+    DuplicateOk,
+    /// answers Ok after worker_timeout + 1.5 s
+    LateOk,
+    ProcessingThenOk,
+    /// a Processing notice, then nothing
+    ProcessingOnly,
+    /// answers Ok with an id the hub never sent, then nothing
+    UnknownId,
+}
+
+impl Beh {
+    fn is_good(self) -> bool {
+        matches!(self, Beh::Ok | Beh::DuplicateOk | Beh::ProcessingThenOk)
+    }
+    /// no terminal answer reaches the hub within the worker timeout
+    fn is_unanswered(self) -> bool {
+        matches!(self, Beh::Silent | Beh::CloseChannel | Beh::LateOk | Beh::ProcessingOnly | Beh::UnknownId)
+    }
+}
+
+#[derive(Clone, Copy, Debug, PartialEq, Eq, Serialize, Deserialize)]
+pub enum Verb {
+    AddCluster,
+    AddBackend,
+    QueryClusterById,
+    /// carries no content: only client 1 sends it (the workers tell the requests apart by arrival order)
+    QueryClustersHashes,
+    /// carries no content: only client 0 sends it
+    Status,
+    /// a state file of `n` AddCluster requests
+    LoadState { n: u8 },
+}
+
+#[derive(Clone, Copy, Debug, PartialEq, Eq, PartialOrd, Ord)]
+enum VerbClass {
+    Mutating,
+    Query,
+    Status,
+    LoadState,
+    Stop,
+}
+
+impl VerbClass {
+    fn name(self) -> &'static str {
+        match self {
+            VerbClass::Mutating => "mutating",
+            VerbClass::Query => "query",
+            VerbClass::Status => "status",
+            VerbClass::LoadState => "loadstate",
+            VerbClass::Stop => "stop",
+        }
+    }
+}
+
+impl Verb {
+    fn class(self) -> VerbClass {
+        match self {
+            Verb::AddCluster | Verb::AddBackend => VerbClass::Mutating,
+            Verb::QueryClusterById | Verb::QueryClustersHashes => VerbClass::Query,
+            Verb::Status => VerbClass::Status,
+            Verb::LoadState { .. } => VerbClass::LoadState,
+        }
+    }
+}
+
+#[derive(Clone, Copy, Debug, Serialize, Deserialize)]
+pub struct BehD {
+    pub beh: Beh,
+    /// index into DELAYS_MS
+    pub delay: u8,
+}
+
+#[derive(Clone, Debug, Serialize, Deserialize)]
+pub struct Req {
+    pub verb: Verb,
+    /// index into DELAYS_MS: pause of the client before it sends this request
+    pub start_delay: u8,
+    /// behaviour of worker i for this request (the first `workers` entries are used)
+    pub per_worker: Vec<BehD>,
+}
+
+#[derive(Clone, Debug, Serialize, Deserialize)]
+pub struct Stop {
+    pub soft: bool,
+    pub per_worker: Vec<BehD>,
+}
+
+#[derive(Clone, Debug, Serialize, Deserialize)]
+pub struct Case {
+    pub workers: u8,
+    /// each client sends its requests one after the other on one connection (the protocol carries no
+    /// request id in a Response); the clients run concurrently
+    pub clients: Vec<Vec<Req>>,
+    pub stop: Stop,
+    /// reproducer mode for the two known findings (`load_state` and SoftStop scatter without a timeout):
+    /// by default a worker never leaves a LoadState without a terminal answer (Silent, LateOk,
+    /// ProcessingOnly, UnknownId, CloseChannel are played as Failure there; a CloseChannel on any request
+    /// is played as Failure when another client sends a LoadState, which it could strand) and never
+    /// closes its channel on SoftStop (played as Ok); what was replaced is counted in excluded_known.
+    /// With `strict` nothing is replaced and the scenario fails with `C09/no-final-answer:loadstate` /
+    /// `C09/no-final-answer:stop`.
+    #[serde(default)]
+    pub strict: bool,
+    /// Status must answer Failure when a worker did not answer Ok (the literal reading of the property;
+    /// by default an Ok whose content tells the truth about every worker is accepted for Status)
+    #[serde(default)]
+    pub strict_status: bool,
+    /// a client writes all its requests at once instead of waiting for each final answer (never generated)
+    #[serde(default)]
+    pub pipeline: bool,
+}
+
+fn behd() -> impl Strategy<Value = BehD> {
+    (
+        prop_oneof![
+            10 => Just(Beh::Ok),
+            2 => Just(Beh::Failure),
+            2 => Just(Beh::Silent),
+            1 => Just(Beh::CloseChannel),
+            2 => Just(Beh::DuplicateOk),
+            1 => Just(Beh::LateOk),
+            2 => Just(Beh::ProcessingThenOk),
+            1 => Just(Beh::ProcessingOnly),
+            1 => Just(Beh::UnknownId),
+        ],
+        (0u8..3).no_shrink(),
+    )
+        .prop_map(|(beh, delay)| BehD { beh, delay })
+}
+
+/// verbs a client may send, by client index (content-less verbs have one designated sender each)
+fn verbs_for(client: usize) -> Vec<Verb> {
+    let mut v = vec![
+        Verb::AddCluster,
+        Verb::AddBackend,
+        Verb::QueryClusterById,
+        Verb::LoadState { n: 1 },
+    ];
+    match client {
+        0 => v.insert(3, Verb::Status),
+        1 => v.insert(3, Verb::QueryClustersHashes),
+        _ => {}
+    }
+    v
+}
+
+type RawReq = (u32, u8, Vec<BehD>);
+
+pub fn strategy() -> impl Strategy<Value = Case> {
+    let req = (any::<u32>(), (0u8..3).no_shrink(), prop::collection::vec(behd(), 3));
+    (
+        1u8..4,
+        prop::collection::vec(prop::collection::vec(req, 1..3), 1..4),
+        (prop::bool::weighted(0.25), prop::collection::vec(behd(), 3)),
+    )
+        .prop_map(|(workers, raw, (soft, stop_b))| {
+            let clients = raw
+                .into_iter()
+                .enumerate()
+                .map(|(ci, reqs): (usize, Vec<RawReq>)| {
+                    let allowed = verbs_for(ci);
+                    reqs.into_iter()
+                        .map(|(v, start_delay, per_worker)| {
+                            let verb = match allowed[pick_idx(v, allowed.len())] {
+                                // the size of the state file rides on the low bit of the same draw
+                                Verb::LoadState { .. } => Verb::LoadState { n: 1 + (v & 1) as u8 },
+                                other => other,
+                            };
+                            Req { verb, start_delay, per_worker }
+                        })
+                        .collect()
+                })
+                .collect();
+            Case { workers, clients, stop: Stop { soft, per_worker: stop_b }, strict: false, strict_status: false, pipeline: false }
+        })
+}
+
+// ---------------------------------------------------------------------------
+// framing used by the harness ends (what command/src/channel.rs documents: usize LE total length, payload)
+
+const DELIM: usize = std::mem::size_of::<usize>();
+
+fn frame<M: Message>(m: &M) -> Vec<u8> {
+    let payload = m.encode_to_vec();
+    let mut out = Vec::with_capacity(payload.len() + DELIM);
+    out.extend_from_slice(&(payload.len() + DELIM).to_le_bytes());
+    out.extend_from_slice(&payload);
+    out
+}
+
+enum ReadOutcome<M> {
+    Msg(M),
+    Nothing,
+    Closed(String),
+}
+
+struct FrameReader {
+    buf: Vec<u8>,
+}
+
+impl FrameReader {
+    fn new() -> Self {
+        FrameReader { buf: Vec::new() }
+    }
+
+    fn take<M: Message + Default>(&mut self) -> Option<Result<M, String>> {
+        if self.buf.len() < DELIM {
+            return None;
+        }
+        let len = usize::from_le_bytes(self.buf[..DELIM].try_into().unwrap());
+        if len < DELIM || len > (4 << 20) {
+            return Some(Err(format!("bad frame length {len}")));
+        }
+        if self.buf.len() < len {
+            return None;
+        }
+        let m = M::decode(&self.buf[DELIM..len]).map_err(|e| format!("undecodable frame: {e}"));
+        self.buf.drain(..len);
+        Some(m)
+    }
+
+    /// one message if available within `wait`
+    fn poll<M: Message + Default>(&mut self, s: &mut UnixStream, wait: Duration) -> ReadOutcome<M> {
+        if let Some(r) = self.take::<M>() {
+            return match r {
+                Ok(m) => ReadOutcome::Msg(m),
+                Err(e) => ReadOutcome::Closed(e),
+            };
+        }
+        let _ = s.set_read_timeout(Some(wait.max(Duration::from_millis(1))));
+        let mut tmp = [0u8; 16384];
+        match s.read(&mut tmp) {
+            Ok(0) => ReadOutcome::Closed("peer closed the connection".into()),
+            Ok(n) => {
+                self.buf.extend_from_slice(&tmp[..n]);
+                match self.take::<M>() {
+                    Some(Ok(m)) => ReadOutcome::Msg(m),
+                    Some(Err(e)) => ReadOutcome::Closed(e),
+                    None => ReadOutcome::Nothing,
+                }
+            }
+            Err(e) if matches!(e.kind(), std::io::ErrorKind::WouldBlock | std::io::ErrorKind::TimedOut | std::io::ErrorKind::Interrupted) => {
+                ReadOutcome::Nothing
+            }
+            Err(e) => ReadOutcome::Closed(format!("read error: {e}")),
+        }
+    }
+}
+
+// ---------------------------------------------------------------------------
+// fake workers
+
+#[derive(Clone, Copy, Debug, PartialEq, Eq)]
+enum SentKind {
+    Ok,
+    Failure,
+    Processing,
+    BogusId,
+}
+
+#[derive(Clone, Debug)]
+struct WorkerRecord {
+    /// request key -> when each worker request carrying it arrived
+    received: BTreeMap<String, Vec<Instant>>,
+    /// request key -> what was written back, when
+    sent: BTreeMap<String, Vec<(SentKind, Instant)>>,
+    closed_at: Option<Instant>,
+    /// the hub closed its end (or the read failed)
+    hub_gone: Option<String>,
+    /// key of the Status request received after the scenario proper (the closing Status)
+    closing_status_key: Option<String>,
+    unknown_requests: Vec<String>,
+}
+
+struct WorkerShared {
+    /// key -> scripted behaviour
+    script: BTreeMap<String, BehD>,
+    epilogue: AtomicBool,
+    /// answer everything Ok at once, the stop verb included
+    rescue: AtomicBool,
+    quit: AtomicBool,
+    pending: AtomicUsize,
+    record: Mutex<WorkerRecord>,
+}
+
+struct Scheduled {
+    due: Instant,
+    seq: u64,
+    key: String,
+    id: String,
+    kind: SentKind,
+    twice: bool,
+    close: bool,
+    content: Option<ResponseContent>,
+}
+
+impl PartialEq for Scheduled {
+    fn eq(&self, o: &Self) -> bool {
+        self.due == o.due && self.seq == o.seq
+    }
+}
+impl Eq for Scheduled {}
+impl PartialOrd for Scheduled {
+    fn partial_cmp(&self, o: &Self) -> Option<std::cmp::Ordering> {
+        Some(self.cmp(o))
+    }
+}
+impl Ord for Scheduled {
+    fn cmp(&self, o: &Self) -> std::cmp::Ordering {
+        // BinaryHeap is a max-heap: earliest due first
+        o.due.cmp(&self.due).then(o.seq.cmp(&self.seq))
+    }
+}
+
+/// what a worker request is about: the tag of the client request that caused it
+fn request_key(req: &Request, status_seen: &mut usize, hashes_seen: &mut usize) -> Option<String> {
+    match req.request_type.as_ref()? {
+        RequestType::AddCluster(c) => Some(c.cluster_id.split('s').next().unwrap_or("").to_string()),
+        RequestType::AddBackend(b) => Some(b.cluster_id.clone()),
+        RequestType::QueryClusterById(id) => Some(id.clone()),
+        RequestType::Status(_) => {
+            *status_seen += 1;
+            Some(format!("status#{}", *status_seen - 1))
+        }
+        RequestType::QueryClustersHashes(_) => {
+            *hashes_seen += 1;
+            Some(format!("hashes#{}", *hashes_seen - 1))
+        }
+        RequestType::HardStop(_) | RequestType::SoftStop(_) => Some("stop".to_string()),
+        _ => None,
+    }
+}
+
+fn ok_content(req: &Request, key: &str, worker: u32) -> Option<ResponseContent> {
+    match req.request_type.as_ref()? {
+        RequestType::QueryClusterById(id) => Some(
+            ContentType::Clusters(ClusterInformations {
+                vec: vec![ClusterInformation {
+                    configuration: Some(Cluster { cluster_id: id.clone(), ..Default::default() }),
+                    ..Default::default()
+                }],
+            })
+            .into(),
+        ),
+        RequestType::QueryClustersHashes(_) => {
+            let mut map = BTreeMap::new();
+            map.insert(format!("[{key}]"), worker as u64);
+            Some(ContentType::ClusterHashes(ClusterHashes { map }).into())
+        }
+        _ => None,
+    }
+}
+
+fn worker_main(id: u32, mut stream: UnixStream, shared: Arc<WorkerShared>) {
+    let mut reader = FrameReader::new();
+    let mut heap: BinaryHeap<Scheduled> = BinaryHeap::new();
+    let mut seq = 0u64;
+    let mut status_seen = 0usize;
+    let mut hashes_seen = 0usize;
+    let mut bogus = 0usize;
+    let mut open = true;
+    loop {
+        if shared.quit.load(Ordering::SeqCst) {
+            break;
+        }
+        // fire what is due
+        let now = Instant::now();
+        while heap.peek().map(|s| s.due <= now).unwrap_or(false) {
+            let s = heap.pop().unwrap();
+            if !open {
+                continue;
+            }
+            if s.close {
+                let _ = stream.shutdown(std::net::Shutdown::Both);
+                open = false;
+                shared.record.lock().unwrap().closed_at = Some(Instant::now());
+                continue;
+            }
+            let status = match s.kind {
+                SentKind::Ok | SentKind::BogusId => ResponseStatus::Ok,
+                SentKind::Failure => ResponseStatus::Failure,
+                SentKind::Processing => ResponseStatus::Processing,
+            };
+            let msg = WorkerResponse {
+                id: s.id.clone(),
+                status: status as i32,
+                message: format!("[{}] {:?} from worker {id}", s.key, s.kind),
+                content: s.content.clone(),
+            };
+            let mut bytes = frame(&msg);
+            if s.twice {
+                let again = bytes.clone();
+                bytes.extend_from_slice(&again);
+            }
+            let wrote = stream.write_all(&bytes).is_ok();
+            if wrote {
+                let mut rec = shared.record.lock().unwrap();
+                let at = Instant::now();
+                let e = rec.sent.entry(s.key.clone()).or_default();
+                e.push((s.kind, at));
+                if s.twice {
+                    e.push((s.kind, at));
+                }
+            }
+        }
+        shared.pending.store(if open { heap.len() } else { 0 }, Ordering::SeqCst);
+        if !open {
+            std::thread::sleep(Duration::from_millis(10));
+            continue;
+        }
+        let wait = heap
+            .peek()
+            .map(|s| s.due.saturating_duration_since(Instant::now()).min(Duration::from_millis(10)))
+            .unwrap_or(Duration::from_millis(10));
+        let req: WorkerRequest = match reader.poll(&mut stream, wait) {
+            ReadOutcome::Msg(m) => m,
+            ReadOutcome::Nothing => continue,
+            ReadOutcome::Closed(why) => {
+                shared.record.lock().unwrap().hub_gone = Some(why);
+                open = false;
+                continue;
+            }
+        };
+        let t0 = Instant::now();
+        let Some(key) = request_key(&req.content, &mut status_seen, &mut hashes_seen) else {
+            shared.record.lock().unwrap().unknown_requests.push(format!("{:?}", req.content.request_type));
+            continue;
+        };
+        shared.record.lock().unwrap().received.entry(key.clone()).or_default().push(t0);
+        let epilogue = shared.epilogue.load(Ordering::SeqCst);
+        if epilogue && key.starts_with("status#") {
+            shared.record.lock().unwrap().closing_status_key = Some(key.clone());
+        }
+        let rescue = shared.rescue.load(Ordering::SeqCst);
+        let scripted = if rescue || (epilogue && key != "stop") { None } else { shared.script.get(&key).copied() };
+        let BehD { beh, delay } = scripted.unwrap_or(BehD { beh: Beh::Ok, delay: 0 });
+        let d = Duration::from_millis(DELAYS_MS[(delay as usize).min(2)]);
+        let content = ok_content(&req.content, &key, id);
+        let mut push = |due: Instant, kind: SentKind, twice: bool, close: bool, rid: String| {
+            seq += 1;
+            heap.push(Scheduled { due, seq, key: key.clone(), id: rid, kind, twice, close, content: if kind == SentKind::Ok { content.clone() } else { None } });
+        };
+        match beh {
+            Beh::Ok => push(t0 + d, SentKind::Ok, false, false, req.id.clone()),
+            Beh::Failure => push(t0 + d, SentKind::Failure, false, false, req.id.clone()),
+            Beh::Silent => {}
+            Beh::CloseChannel => push(t0 + d, SentKind::Ok, false, true, req.id.clone()),
+            Beh::DuplicateOk => push(t0 + d, SentKind::Ok, true, false, req.id.clone()),
+            Beh::LateOk => push(t0 + d + Duration::from_millis(LATE_MS), SentKind::Ok, false, false, req.id.clone()),
+            Beh::ProcessingThenOk => {
+                push(t0 + d, SentKind::Processing, false, false, req.id.clone());
+                push(t0 + d + Duration::from_millis(20), SentKind::Ok, false, false, req.id.clone());
+            }
+            Beh::ProcessingOnly => push(t0 + d, SentKind::Processing, false, false, req.id.clone()),
+            Beh::UnknownId => {
+                bogus += 1;
+                push(t0 + d, SentKind::BogusId, false, false, format!("BOGUS-{id}-{bogus}"));
+            }
+        }
+        shared.pending.store(heap.len(), Ordering::SeqCst);
+    }
+}
+
+// ---------------------------------------------------------------------------
+// clients
+
+#[derive(Clone, Debug, Default)]
+struct ReqOutcome {
+    sent_at: Option<Instant>,
+    notices: Vec<Response>,
+    notices_after_final: usize,
+    finals: Vec<(Response, Instant)>,
+    /// why reading stopped before a final answer
+    broken: Option<String>,
+}
+
+fn is_final(r: &Response) -> bool {
+    r.status != ResponseStatus::Processing as i32
+}
+
+/// read the answers to the request(s) in flight: until `want` finals were seen plus the second-final
+/// window, or the deadline, or the connection broke
+fn read_answers(stream: &mut UnixStream, reader: &mut FrameReader, out: &mut ReqOutcome, want: usize, hub_done: &AtomicBool) {
+    let deadline = Instant::now() + FINAL_DEADLINE;
+    let mut until = deadline;
+    loop {
+        let now = Instant::now();
+        if now >= until {
+            if out.finals.len() < want {
+                out.broken = Some(format!("{} final answer(s) within {} ms, {want} expected", out.finals.len(), FINAL_DEADLINE.as_millis()));
+            }
+            return;
+        }
+        match reader.poll::<Response>(stream, (until - now).min(Duration::from_millis(50))) {
+            ReadOutcome::Msg(r) => {
+                if is_final(&r) {
+                    out.finals.push((r, Instant::now()));
+                    if out.finals.len() == want {
+                        until = Instant::now() + SECOND_FINAL_WINDOW;
+                    }
+                } else if out.finals.len() < want {
+                    out.notices.push(r);
+                } else {
+                    out.notices_after_final += 1;
+                }
+            }
+            ReadOutcome::Nothing => {
+                if hub_done.load(Ordering::SeqCst) && out.finals.len() < want {
+                    // the hub thread is gone: drain what is buffered, then give up
+                    if let ReadOutcome::Msg(r) = reader.poll::<Response>(stream, Duration::from_millis(20)) {
+                        if is_final(&r) {
+                            out.finals.push((r, Instant::now()));
+                            continue;
+                        }
+                    }
+                    out.broken = Some("the hub thread ended before a final answer".into());
+                    return;
+                }
+            }
+            ReadOutcome::Closed(why) => {
+                if out.finals.len() < want {
+                    out.broken = Some(why);
+                }
+                return;
+            }
+        }
+    }
+}
+
+fn client_main(path: String, reqs: Vec<(Request, u64)>, pipeline: bool, hub_done: Arc<AtomicBool>) -> Vec<ReqOutcome> {
+    let mut outs: Vec<ReqOutcome> = vec![ReqOutcome::default(); reqs.len()];
+    let mut stream = match UnixStream::connect(&path) {
+        Ok(s) => s,
+        Err(e) => {
+            outs[0].sent_at = Some(Instant::now());
+            outs[0].broken = Some(format!("cannot connect to the command socket: {e}"));
+            return outs;
+        }
+    };
+    let mut reader = FrameReader::new();
+    if pipeline {
+        // all requests in one write; the finals are attributed in order of arrival
+        let mut bytes = vec![];
+        for (r, _) in &reqs {
+            bytes.extend_from_slice(&frame(r));
+        }
+        let at = Instant::now();
+        let mut agg = ReqOutcome { sent_at: Some(at), ..Default::default() };
+        if let Err(e) = stream.write_all(&bytes) {
+            agg.broken = Some(format!("write failed: {e}"));
+        } else {
+            read_answers(&mut stream, &mut reader, &mut agg, reqs.len(), &hub_done);
+        }
+        let n = outs.len();
+        for (i, o) in outs.iter_mut().enumerate() {
+            o.sent_at = Some(at);
+            o.broken = agg.broken.clone();
+            if i < agg.finals.len() {
+                o.finals.push(agg.finals[i].clone());
+            }
+            if i + 1 == n && agg.finals.len() > n {
+                o.finals.extend(agg.finals[n..].iter().cloned());
+            }
+        }
+        outs[0].notices = agg.notices;
+        return outs;
+    }
+    for (i, (r, pause_ms)) in reqs.iter().enumerate() {
+        if *pause_ms > 0 {
+            std::thread::sleep(Duration::from_millis(*pause_ms));
+        }
+        outs[i].sent_at = Some(Instant::now());
+        if let Err(e) = stream.write_all(&frame(r)) {
+            outs[i].broken = Some(format!("write failed: {e}"));
+            break;
+        }
+        read_answers(&mut stream, &mut reader, &mut outs[i], 1, &hub_done);
+        if outs[i].finals.is_empty() {
+            // a late answer would be attributed to the next request: stop here
+            break;
+        }
+    }
+    outs
+}
+
+// ---------------------------------------------------------------------------
+// the hub thread
+
+enum HubExit {
+    Returned,
+    Panicked { loc: String, msg: String },
+    SetupFailed(String),
+}
+
+struct HubWorker {
+    id: u32,
+    pid: i32,
+    hub_side: UnixStream,
+    scm_fd: i32,
+}
+
+fn hub_main(cfg_path: String, sock_path: String, workers: Vec<HubWorker>, ready: mpsc::Sender<Result<(), String>>, done: Arc<AtomicBool>) -> HubExit {
+    // this thread's sozu logger prints errors to stdout by default: silence it
+    // (diagnosis aid: C09_HUB_LOG=<spec> lets this thread's log lines through)
+    let directives = match std::env::var("C09_HUB_LOG") {
+        Ok(spec) => sozu_command_lib::logging::parse_logging_spec(&spec).0,
+        Err(_) => vec![],
+    };
+    sozu_command_lib::logging::LOGGER.with(|l| l.borrow_mut().set_directives(directives));
+    let setup = || -> Result<CommandHub, String> {
+        let config = Config::load_from_path(&cfg_path).map_err(|e| format!("config: {e}"))?;
+        let listener = mio::net::UnixListener::bind(&sock_path).map_err(|e| format!("bind: {e}"))?;
+        let mut hub = CommandHub::new(listener, config, "/bin/true".into()).map_err(|e| format!("hub: {e}"))?;
+        for w in workers {
+            w.hub_side.set_nonblocking(true).map_err(|e| format!("nonblocking: {e}"))?;
+            let channel: Channel<WorkerRequest, WorkerResponse> = Channel::new(mio::net::UnixStream::from_std(w.hub_side), 4096, 1 << 21);
+            let scm = ScmSocket::new(w.scm_fd).map_err(|e| format!("scm: {e}"))?;
+            hub.register_worker(w.id, w.pid, channel, scm).map_err(|e| format!("register_worker: {e}"))?;
+        }
+        Ok(hub)
+    };
+    let mut hub = match setup() {
+        Ok(h) => h,
+        Err(e) => {
+            let _ = ready.send(Err(e.clone()));
+            done.store(true, Ordering::SeqCst);
+            return HubExit::SetupFailed(e);
+        }
+    };
+    let _ = ready.send(Ok(()));
+    let _ = engine::take_last_panic();
+    let r = std::panic::catch_unwind(std::panic::AssertUnwindSafe(|| hub.run()));
+    let exit = match r {
+        Ok(_) => HubExit::Returned,
+        Err(_) => {
+            let (loc, msg) = engine::take_last_panic().unwrap_or(("?".into(), "?".into()));
+            HubExit::Panicked { loc, msg }
+        }
+    };
+    drop(hub);
+    done.store(true, Ordering::SeqCst);
+    exit
+}
+
+// ---------------------------------------------------------------------------
+// the scenario
+
+fn tag(client: usize, idx: usize) -> String {
+    format!("t{client}x{idx}")
+}
+
+struct PlannedReq {
+    client: usize,
+    idx: usize,
+    verb: Verb,
+    key: String,
+    request: Request,
+    /// effective behaviour per worker after the knobs
+    behs: Vec<BehD>,
+    excluded: u64,
+}
+
+/// By-construction exclusion of the two known shapes (see `Case::strict`).
+/// `close_strands_loadstate`: another client sends a LoadState, which a channel closed now could leave
+/// without an answer for ever.
+fn effective(case: &Case, class: VerbClass, soft_stop: bool, close_strands_loadstate: bool, b: BehD, excluded: &mut u64) -> BehD {
+    let mut beh = b.beh;
+    if !case.strict {
+        if class == VerbClass::LoadState && beh.is_unanswered() {
+            beh = Beh::Failure;
+            *excluded += 1;
+        } else if class != VerbClass::Stop && close_strands_loadstate && beh == Beh::CloseChannel {
+            beh = Beh::Failure;
+            *excluded += 1;
+        } else if class == VerbClass::Stop && soft_stop && beh == Beh::CloseChannel {
+            beh = Beh::Ok;
+            *excluded += 1;
+        }
+    }
+    BehD { beh, delay: b.delay }
+}
+
+fn plan(case: &Case, dir: &Path) -> Vec<PlannedReq> {
+    let w = case.workers as usize;
+    let mut out = vec![];
+    let mut status_n = 0;
+    let mut hashes_n = 0;
+    for (ci, reqs) in case.clients.iter().enumerate() {
+        for (ri, r) in reqs.iter().enumerate() {
+            let t = tag(ci, ri);
+            let (key, request): (String, Request) = match r.verb {
+                Verb::AddCluster => (t.clone(), RequestType::AddCluster(Cluster { cluster_id: t.clone(), ..Default::default() }).into()),
+                Verb::AddBackend => (
+                    t.clone(),
+                    RequestType::AddBackend(AddBackend {
+                        cluster_id: t.clone(),
+                        backend_id: format!("{t}-b"),
+                        address: SocketAddress::new_v4(127, 0, 0, 1, 2000 + (ci * 10 + ri) as u16),
+                        ..Default::default()
+                    })
+                    .into(),
+                ),
+                Verb::QueryClusterById => (t.clone(), RequestType::QueryClusterById(t.clone()).into()),
+                Verb::QueryClustersHashes => {
+                    assert!(ci == 1, "invalid case: QueryClustersHashes is only sent by client 1");
+                    hashes_n += 1;
+                    (format!("hashes#{}", hashes_n - 1), RequestType::QueryClustersHashes(QueryClustersHashes {}).into())
+                }
+                Verb::Status => {
+                    assert!(ci == 0, "invalid case: Status is only sent by client 0");
+                    status_n += 1;
+                    (format!("status#{}", status_n - 1), RequestType::Status(Status {}).into())
+                }
+                Verb::LoadState { n } => {
+                    let path = dir.join(format!("state-{t}.json"));
+                    let mut bytes = vec![];
+                    for k in 0..n.clamp(1, 4) {
+                        let wr = WorkerRequest {
+                            id: format!("SAVE-{k}"),
+                            content: RequestType::AddCluster(Cluster { cluster_id: format!("{t}s{k}"), ..Default::default() }).into(),
+                        };
+                        bytes.extend_from_slice(serde_json::to_string(&wr).expect("serialise WorkerRequest").as_bytes());
+                        bytes.extend_from_slice(b"\n\0");
+                    }
+                    std::fs::write(&path, bytes).expect("write state file");
+                    (t.clone(), RequestType::LoadState(path.to_string_lossy().to_string()).into())
+                }
+            };
+            let mut excluded = 0;
+            let close_strands_loadstate = case.clients.iter().enumerate().any(|(cj, other)| cj != ci && other.iter().any(|o| o.verb.class() == VerbClass::LoadState));
+            let behs = (0..w)
+                .map(|wi| effective(case, r.verb.class(), false, close_strands_loadstate, r.per_worker.get(wi).copied().unwrap_or(BehD { beh: Beh::Ok, delay: 0 }), &mut excluded))
+                .collect();
+            out.push(PlannedReq { client: ci, idx: ri, verb: r.verb, key, request, behs, excluded });
+        }
+    }
+    out
+}
+
+#[derive(Clone, Copy, Debug, PartialEq, Eq)]
+enum WorkerPart {
+    /// received the request and sent a terminal Ok (and no Failure) in time
+    Good,
+    /// received the request and did not acknowledge it (the scripted behaviour)
+    Bad(Beh),
+    /// its channel was closed long before the request was sent
+    DeadBefore,
+    /// its channel closed around the time of the dispatch: may or may not have been asked
+    Ambiguous,
+    /// alive all along, yet never received the request
+    NotAsked,
+    /// harness starvation: the answer left too late to be judged
+    Slack,
+}
+
+struct Teardown {
+    children: Vec<Child>,
+    reap: bool,
+}
+
+impl Drop for Teardown {
+    fn drop(&mut self) {
+        for c in self.children.iter_mut() {
+            let _ = c.kill();
+            if self.reap {
+                let _ = c.wait();
+            }
+            // not reaped: the zombie keeps the pid reserved, a hub thread that never stopped can not
+            // SIGKILL a stranger through it
+        }
+    }
+}
+
+fn slug(s: &str) -> String {
+    let mut out = String::new();
+    let mut dash = false;
+    for c in s.chars() {
+        if c.is_ascii_alphanumeric() || c == '_' {
+            out.push(c);
+            dash = false;
+        } else if !dash && !out.is_empty() {
+            out.push('-');
+            dash = true;
+        }
+        if out.len() >= 56 {
+            break;
+        }
+    }
+    out.trim_end_matches('-').to_string()
+}
+
+fn short_file(loc: &str) -> String {
+    let file = loc.rsplit_once(':').map(|(f, _)| f).unwrap_or(loc);
+    file.rsplit_once("/repo/").map(|(_, b)| b.to_string()).unwrap_or(file.to_string())
+}
+
+fn one_shot(path: &str, req: &Request, hub_done: &Arc<AtomicBool>) -> ReqOutcome {
+    client_main(path.to_string(), vec![(req.clone(), 0)], false, hub_done.clone()).remove(0)
+}
+
+fn status_of(r: &Response) -> &'static str {
+    match ResponseStatus::try_from(r.status) {
+        Ok(ResponseStatus::Ok) => "Ok",
+        Ok(ResponseStatus::Failure) => "Failure",
+        Ok(ResponseStatus::Processing) => "Processing",
+        Err(_) => "?",
+    }
+}
+
+fn run_state_name(v: i32) -> &'static str {
+    match RunState::try_from(v) {
+        Ok(RunState::Running) => "Running",
+        Ok(RunState::Stopping) => "Stopping",
+        Ok(RunState::Stopped) => "Stopped",
+        Ok(RunState::NotAnswering) => "NotAnswering",
+        Err(_) => "?",
+    }
+}
+
+/// every "[tag]" mentioned in `text`
+fn tags_in(text: &str) -> Vec<String> {
+    let mut v = vec![];
+    let mut rest = text;
+    while let Some(i) = rest.find('[') {
+        rest = &rest[i + 1..];
+        if let Some(j) = rest.find(']') {
+            let t = &rest[..j];
+            if !t.is_empty() && t.len() <= 12 && t.chars().all(|c| c.is_ascii_alphanumeric() || c == '#') {
+                v.push(t.to_string());
+            }
+        }
+    }
+    v
+}
+
+fn content_tags(c: &Option<ResponseContent>) -> Vec<String> {
+    let mut v = vec![];
+    let Some(ResponseContent { content_type: Some(ct) }) = c else { return v };
+    if let ContentType::WorkerResponses(wr) = ct {
+        for (who, rc) in &wr.map {
+            if who == "main" {
+                continue;
+            }
+            match &rc.content_type {
+                Some(ContentType::Clusters(ci)) => {
+                    for info in &ci.vec {
+                        if let Some(cfg) = &info.configuration {
+                            v.push(cfg.cluster_id.clone());
+                        }
+                    }
+                }
+                Some(ContentType::ClusterHashes(h)) => {
+                    for k in h.map.keys() {
+                        v.extend(tags_in(k));
+                    }
+                }
+                _ => {}
+            }
+        }
+    }
+    v
+}
+
+pub fn check(case: &Case) -> CheckResult {
+    let mut rep = CaseReport::default();
+    let w = case.workers as usize;
+    assert!((1..=3).contains(&w) && !case.clients.is_empty() && case.clients.iter().all(|c| !c.is_empty()), "invalid case shape");
+
+    std::fs::create_dir_all("/verif/scratch").expect("scratch dir");
+    let dir = tempfile::Builder::new().prefix("c09-").tempdir_in("/verif/scratch").expect("temp dir");
+    let sock_path = dir.path().join("s.sock").to_string_lossy().to_string();
+    let cfg_path = dir.path().join("config.toml").to_string_lossy().to_string();
+    std::fs::write(
+        &cfg_path,
+        format!(
+            "command_socket = \"{sock_path}\"\nworker_count = 0\nworker_automatic_restart = false\nworker_timeout = {WORKER_TIMEOUT_S}\nlog_level = \"error\"\nlog_target = \"stdout\"\n"
+        ),
+    )
+    .expect("write config");
+    let planned = plan(case, dir.path());
+
+    // ---- stop spec
+    let mut stop_excluded = 0u64;
+    let stop_behs: Vec<BehD> = (0..w)
+        .map(|wi| {
+            let b = case.stop.per_worker.get(wi).copied().unwrap_or(BehD { beh: Beh::Ok, delay: 0 });
+            // a worker that is still draining connections legitimately takes for ever to answer SoftStop
+            let b = if case.stop.soft && matches!(b.beh, Beh::Silent | Beh::LateOk | Beh::ProcessingOnly | Beh::UnknownId) { BehD { beh: Beh::Ok, delay: b.delay } } else { b };
+            effective(case, VerbClass::Stop, case.stop.soft, false, b, &mut stop_excluded)
+        })
+        .collect();
+
+    // ---- children, socket pairs
+    let mut td = Teardown { children: vec![], reap: true };
+    for _ in 0..w {
+        let child = Command::new("sleep").arg("600").stdin(Stdio::null()).stdout(Stdio::null()).stderr(Stdio::null()).spawn().expect("spawn sleep");
+        td.children.push(child);
+    }
+    let mut hub_workers = vec![];
+    let mut worker_sides = vec![];
+    let mut scm_keep = vec![];
+    for wi in 0..w {
+        let (hub_side, worker_side) = UnixStream::pair().expect("socketpair");
+        let (scm_a, scm_b) = UnixStream::pair().expect("socketpair");
+        hub_workers.push(HubWorker { id: wi as u32, pid: td.children[wi].id() as i32, hub_side, scm_fd: scm_a.as_raw_fd() });
+        worker_sides.push(worker_side);
+        scm_keep.push((scm_a, scm_b));
+    }
+
+    // ---- hub
+    let hub_done = Arc::new(AtomicBool::new(false));
+    let (ready_tx, ready_rx) = mpsc::channel();
+    let hub_handle = {
+        let (cfg_path, sock_path, hub_done) = (cfg_path.clone(), sock_path.clone(), hub_done.clone());
+        std::thread::Builder::new()
+            .name("c09-hub".into())
+            .stack_size(8 << 20)
+            .spawn(move || hub_main(cfg_path, sock_path, hub_workers, ready_tx, hub_done))
+            .expect("spawn hub thread")
+    };
+    match ready_rx.recv_timeout(Duration::from_secs(10)) {
+        Ok(Ok(())) => {}
+        Ok(Err(e)) => panic!("C09 harness: hub setup failed: {e}"),
+        Err(_) => panic!("C09 harness: hub setup did not finish"),
+    }
+
+    // ---- workers
+    let mut shared: Vec<Arc<WorkerShared>> = vec![];
+    let mut worker_handles = vec![];
+    for (wi, side) in worker_sides.into_iter().enumerate() {
+        let mut script = BTreeMap::new();
+        for p in &planned {
+            script.insert(p.key.clone(), p.behs[wi]);
+        }
+        script.insert("stop".to_string(), stop_behs[wi]);
+        let sh = Arc::new(WorkerShared {
+            script,
+            epilogue: AtomicBool::new(false),
+            rescue: AtomicBool::new(false),
+            quit: AtomicBool::new(false),
+            pending: AtomicUsize::new(0),
+            record: Mutex::new(WorkerRecord { received: BTreeMap::new(), sent: BTreeMap::new(), closed_at: None, hub_gone: None, closing_status_key: None, unknown_requests: vec![] }),
+        });
+        shared.push(sh.clone());
+        worker_handles.push(
+            std::thread::Builder::new()
+                .name(format!("c09-w{wi}"))
+                .spawn(move || worker_main(wi as u32, side, sh))
+                .expect("spawn worker thread"),
+        );
+    }
+
+    // ---- clients
+    let mut client_handles = vec![];
+    for (ci, reqs) in case.clients.iter().enumerate() {
+        let list: Vec<(Request, u64)> = reqs
+            .iter()
+            .enumerate()
+            .map(|(ri, r)| {
+                let p = planned.iter().find(|p| p.client == ci && p.idx == ri).unwrap();
+                (p.request.clone(), DELAYS_MS[(r.start_delay as usize).min(2)])
+            })
+            .collect();
+        let (path, hub_done, pipeline) = (sock_path.clone(), hub_done.clone(), case.pipeline);
+        client_handles.push(
+            std::thread::Builder::new()
+                .name(format!("c09-c{ci}"))
+                .spawn(move || client_main(path, list, pipeline, hub_done))
+                .expect("spawn client thread"),
+        );
+    }
+    let outcomes: Vec<Vec<ReqOutcome>> = client_handles.into_iter().map(|h| h.join().expect("client thread")).collect();
+
+    // ---- let the late answers reach the hub
+    let drain_deadline = Instant::now() + Duration::from_millis(LATE_MS + 1000);
+    while Instant::now() < drain_deadline && !hub_done.load(Ordering::SeqCst) && shared.iter().any(|s| s.pending.load(Ordering::SeqCst) > 0) {
+        std::thread::sleep(Duration::from_millis(20));
+    }
+    std::thread::sleep(Duration::from_millis(100));
+
+    // ---- epilogue: a fresh client asks for the status, then the stop verb
+    for s in &shared {
+        s.epilogue.store(true, Ordering::SeqCst);
+    }
+    let final_status = one_shot(&sock_path, &RequestType::Status(Status {}).into(), &hub_done);
+    let closed_before_stop: Vec<bool> = shared.iter().map(|s| s.record.lock().unwrap().closed_at.is_some()).collect();
+    let stop_req: Request = if case.stop.soft { RequestType::SoftStop(SoftStop {}).into() } else { RequestType::HardStop(HardStop {}).into() };
+    let stop_sent = Instant::now();
+    let stop_out = one_shot(&sock_path, &stop_req, &hub_done);
+    let join_deadline = Instant::now() + Duration::from_secs(3);
+    while !hub_handle.is_finished() && Instant::now() < join_deadline {
+        std::thread::sleep(Duration::from_millis(10));
+    }
+    let mut hub_stuck = false;
+    if !hub_handle.is_finished() {
+        hub_stuck = true;
+        // rescue: a hard stop answered by everybody
+        for s in &shared {
+            s.rescue.store(true, Ordering::SeqCst);
+        }
+        let _ = one_shot(&sock_path, &RequestType::HardStop(HardStop {}).into(), &hub_done);
+        let d = Instant::now() + Duration::from_secs(3);
+        while !hub_handle.is_finished() && Instant::now() < d {
+            std::thread::sleep(Duration::from_millis(10));
+        }
+    }
+    let hub_exit = if hub_handle.is_finished() {
+        Some(hub_handle.join().unwrap_or(HubExit::Panicked { loc: "?".into(), msg: "hub thread died outside run()".into() }))
+    } else {
+        td.reap = false;
+        None
+    };
+    for s in &shared {
+        s.quit.store(true, Ordering::SeqCst);
+    }
+    for h in worker_handles {
+        let _ = h.join();
+    }
+    let records: Vec<WorkerRecord> = shared.iter().map(|s| s.record.lock().unwrap().clone()).collect();
+    drop(scm_keep);
+    drop(td);
+
+    // =======================================================================
+    // oracle
+
+    let describe = |p: &PlannedReq| -> String {
+        let behs: Vec<String> = p.behs.iter().enumerate().map(|(i, b)| format!("w{i}:{:?}+{}ms", b.beh, DELAYS_MS[(b.delay as usize).min(2)])).collect();
+        format!("client {} request {} ({:?}, key {}) [{}]", p.client, p.idx, p.verb, p.key, behs.join(" "))
+    };
+
+    // what each worker did with a request
+    let parts_of = |p: &PlannedReq, sent_at: Instant| -> Vec<WorkerPart> {
+        let expected_msgs = match p.verb {
+            Verb::LoadState { n } => n.clamp(1, 4) as usize,
+            _ => 1,
+        };
+        (0..w)
+            .map(|wi| {
+                let rec = &records[wi];
+                let got = rec.received.get(&p.key).map(|v| v.len()).unwrap_or(0);
+                if got == 0 {
+                    return match rec.closed_at {
+                        None => WorkerPart::NotAsked,
+                        Some(c) if c + DEAD_MARGIN <= sent_at => WorkerPart::DeadBefore,
+                        Some(_) => WorkerPart::Ambiguous,
+                    };
+                }
+                let sent = rec.sent.get(&p.key).cloned().unwrap_or_default();
+                let oks: Vec<Instant> = sent.iter().filter(|(k, _)| *k == SentKind::Ok).map(|(_, t)| *t).collect();
+                let failures = sent.iter().filter(|(k, _)| *k == SentKind::Failure).count();
+                let beh = p.behs[wi].beh;
+                if beh.is_good() {
+                    if failures == 0 && got == expected_msgs && oks.len() >= expected_msgs {
+                        if oks.iter().any(|t| t.duration_since(sent_at) > SLACK_LIMIT) { WorkerPart::Slack } else { WorkerPart::Good }
+                    } else if rec.closed_at.is_some() {
+                        // closed (for another request) before this answer left
+                        WorkerPart::Bad(Beh::CloseChannel)
+                    } else {
+                        WorkerPart::Slack
+                    }
+                } else if beh == Beh::Failure {
+                    // a Failure that left in time is a terminal answer too
+                    let fails: Vec<Instant> = sent.iter().filter(|(k, _)| *k == SentKind::Failure).map(|(_, t)| *t).collect();
+                    if fails.len() >= expected_msgs && fails.iter().all(|t| t.duration_since(sent_at) <= SLACK_LIMIT) {
+                        WorkerPart::Bad(Beh::Failure)
+                    } else if rec.closed_at.is_some() {
+                        WorkerPart::Bad(Beh::CloseChannel)
+                    } else {
+                        WorkerPart::Slack
+                    }
+                } else {
+                    WorkerPart::Bad(beh)
+                }
+            })
+            .collect()
+    };
+    // every worker concerned sent its terminal answer (Ok or Failure) in time
+    let all_answered = |parts: &[WorkerPart]| parts.iter().all(|x| matches!(x, WorkerPart::Good | WorkerPart::Bad(Beh::Failure) | WorkerPart::DeadBefore));
+
+    // ---- the hub must not have crashed
+    if let Some(HubExit::Panicked { loc, msg }) = &hub_exit {
+        let pending: Vec<&PlannedReq> = planned
+            .iter()
+            .filter(|p| outcomes[p.client][p.idx].sent_at.is_some() && outcomes[p.client][p.idx].finals.is_empty())
+            .collect();
+        let unanswered: Vec<String> = pending.iter().map(|p| format!("{} {:?}", describe(p), parts_of(p, outcomes[p.client][p.idx].sent_at.unwrap()))).collect();
+        // the workers answered every request in flight, in time: the hub lost answers before it panicked
+        let lost = !pending.is_empty() && pending.iter().all(|p| all_answered(&parts_of(p, outcomes[p.client][p.idx].sent_at.unwrap())));
+        return Err(Failure::new(
+            if lost {
+                format!("C09/answers-dropped:hub-panicked:{}", short_file(loc))
+            } else {
+                format!("C09/hub-panicked:{}:{}", short_file(loc), slug(msg))
+            },
+            format!("the command hub thread panicked at {loc}: {msg}; requests without a final answer at that point, with what each worker did: {unanswered:?}"),
+        ));
+    }
+    if let Some(HubExit::SetupFailed(e)) = &hub_exit {
+        panic!("C09 harness: {e}");
+    }
+    for (wi, r) in records.iter().enumerate() {
+        assert!(r.unknown_requests.is_empty(), "C09 harness: worker {wi} got requests it cannot attribute: {:?}", r.unknown_requests);
+    }
+
+    let all_keys: Vec<&String> = planned.iter().map(|p| &p.key).collect();
+    let mut judged = 0u64;
+    let mut ambiguous_reqs = 0u64;
+    let mut slack_reqs = 0u64;
+    let mut saw_failure_verdict = false;
+    let mut saw_ok_verdict = false;
+    let mut notices_after_final = 0usize;
+
+    if case.pipeline {
+        // replay-only mode (never generated): a client that writes several requests at once
+        for (ci, outs) in outcomes.iter().enumerate() {
+            let finals: usize = outs.iter().map(|o| o.finals.len()).sum();
+            if finals < outs.len() {
+                let asked: Vec<String> = planned
+                    .iter()
+                    .filter(|p| p.client == ci)
+                    .map(|p| format!("{}: received by {:?}", p.key, (0..w).map(|wi| records[wi].received.contains_key(&p.key)).collect::<Vec<_>>()))
+                    .collect();
+                fail!("C09/pipelined-request-dropped", "client {ci} wrote {} requests in one write and got {finals} final answer(s); per request, which workers received it: {asked:?}", outs.len());
+            }
+        }
+    }
+
+    for p in &planned {
+        let out = &outcomes[p.client][p.idx];
+        let class = p.verb.class();
+        let Some(sent_at) = out.sent_at else {
+            // the client stopped at an earlier request of the same connection (already reported below, in order)
+            continue;
+        };
+        rep.excluded_known += p.excluded;
+        notices_after_final += out.notices_after_final;
+
+        // -- exactly one final answer
+        if out.finals.is_empty() {
+            let parts = parts_of(p, sent_at);
+            if all_answered(&parts) {
+                fail!(
+                    format!("C09/answers-dropped:no-final-answer:{}", class.name()),
+                    "{}: every worker sent its terminal answer in time ({parts:?}) but the client got no final answer: {} ({} processing notices seen)",
+                    describe(p),
+                    out.broken.clone().unwrap_or_default(),
+                    out.notices.len()
+                );
+            }
+            fail!(
+                format!("C09/no-final-answer:{}", class.name()),
+                "{}: {} ({} processing notices seen)",
+                describe(p),
+                out.broken.clone().unwrap_or_default(),
+                out.notices.len()
+            );
+        }
+        if out.finals.len() > 1 {
+            fail!(
+                format!("C09/two-final-answers:{}", class.name()),
+                "{}: a second final answer came within {} ms of the first: {:?}",
+                describe(p),
+                SECOND_FINAL_WINDOW.as_millis(),
+                out.finals.iter().map(|(r, _)| format!("{} {:?}", status_of(r), r.message)).collect::<Vec<_>>()
+            );
+        }
+        let (fin, fin_at) = &out.finals[0];
+        if fin_at.duration_since(sent_at) > FINAL_DEADLINE {
+            fail!(format!("C09/no-final-answer:{}", class.name()), "{}: final answer after {:?}", describe(p), fin_at.duration_since(sent_at));
+        }
+
+        // -- it is about this request
+        let mut mentioned: Vec<String> = tags_in(&fin.message);
+        mentioned.extend(content_tags(&fin.content));
+        for n in &out.notices {
+            mentioned.extend(tags_in(&n.message));
+        }
+        for m in &mentioned {
+            if *m != p.key && all_keys.iter().any(|k| *k == m) {
+                fail!(
+                    "C09/answer-for-another-request",
+                    "{}: what came back mentions request {m}: final {} {:?}, notices {:?}",
+                    describe(p),
+                    status_of(fin),
+                    fin.message,
+                    out.notices.iter().map(|n| n.message.clone()).collect::<Vec<_>>()
+                );
+            }
+        }
+        if let Verb::LoadState { .. } = p.verb {
+            if fin.message.contains("state-") && !fin.message.contains(&format!("state-{}.json", p.key)) {
+                fail!("C09/answer-for-another-request", "{}: final answer is about another state file: {:?}", describe(p), fin.message);
+            }
+        }
+
+        // -- what each worker did with it
+        let parts = parts_of(p, sent_at);
+        let parts_txt = format!("{parts:?}");
+        if parts.contains(&WorkerPart::Slack) {
+            slack_reqs += 1;
+            continue;
+        }
+        let any_bad = parts.iter().any(|x| matches!(x, WorkerPart::Bad(_)));
+        let any_amb = parts.contains(&WorkerPart::Ambiguous);
+        let any_not_asked = parts.contains(&WorkerPart::NotAsked);
+        let has_dup = (0..w).any(|wi| p.behs[wi].beh == Beh::DuplicateOk && !matches!(parts[wi], WorkerPart::DeadBefore | WorkerPart::NotAsked | WorkerPart::Ambiguous));
+        let is_ok = fin.status == ResponseStatus::Ok as i32;
+        if is_ok {
+            saw_ok_verdict = true;
+        } else {
+            saw_failure_verdict = true;
+        }
+        let worst = parts
+            .iter()
+            .filter_map(|x| if let WorkerPart::Bad(b) = x { Some(*b) } else { None })
+            .min_by_key(|b| if *b == Beh::Failure { 0 } else { 1 });
+
+        if class == VerbClass::Status && !case.strict_status {
+            // Status reports per worker: an Ok that tells the truth about every worker is a matching verdict
+            judged += 1;
+            if !is_ok {
+                if !any_bad && !any_amb {
+                    fail!("C09/false-failure:status", "{}: every live worker answered Ok ({parts_txt}) but the final answer is Failure {:?}", describe(p), fin.message);
+                }
+                continue;
+            }
+            let Some(ResponseContent { content_type: Some(ContentType::Workers(infos)) }) = &fin.content else {
+                fail!("C09/status-content", "{}: Ok without the list of workers: {:?}", describe(p), fin.content);
+            };
+            for wi in 0..w {
+                let listed: Vec<i32> = infos.vec.iter().filter(|i| i.id == wi as u32).map(|i| i.run_state).collect();
+                if listed.len() != 1 {
+                    fail!("C09/status-content", "{}: worker {wi} is listed {} times", describe(p), listed.len());
+                }
+                let got = listed[0];
+                let running = RunState::Running as i32;
+                let fine = match parts[wi] {
+                    WorkerPart::Good => got == running,
+                    WorkerPart::Bad(_) | WorkerPart::NotAsked => got != running,
+                    WorkerPart::DeadBefore => got == RunState::Stopped as i32,
+                    WorkerPart::Ambiguous => got != running,
+                    WorkerPart::Slack => true,
+                };
+                if !fine {
+                    let sig = if has_dup { "C09/duplicate-ok-masks-other-worker:status" } else if parts[wi] == WorkerPart::Good { "C09/answers-dropped:status" } else { "C09/status-misreports-silent-worker" };
+                    fail!(sig, "{}: Status says worker {wi} is {} but what it did with this request is {:?} (all: {parts_txt})", describe(p), run_state_name(got), parts[wi]);
+                }
+            }
+            continue;
+        }
+
+        if any_amb && !any_bad {
+            ambiguous_reqs += 1;
+            continue;
+        }
+        judged += 1;
+        if any_bad && is_ok {
+            let worst = worst.unwrap();
+            let what = if has_dup {
+                "duplicate-ok-masks-other-worker".to_string()
+            } else if worst == Beh::Failure {
+                "ok-despite-failure".to_string()
+            } else {
+                "ok-despite-unanswered".to_string()
+            };
+            fail!(
+                format!("C09/{what}:{}", class.name()),
+                "{}: the final answer is Ok {:?} although not every worker alive at dispatch acknowledged the request: {parts_txt}",
+                describe(p),
+                fin.message
+            );
+        }
+        if !any_bad && !is_ok {
+            fail!(
+                format!("C09/false-failure:{}", class.name()),
+                "{}: every worker alive at dispatch acknowledged the request ({parts_txt}) but the final answer is Failure {:?}",
+                describe(p),
+                fin.message
+            );
+        }
+        if !any_bad && is_ok && any_not_asked {
+            fail!(format!("C09/ok-without-asking-worker:{}", class.name()), "{}: Ok, but a live worker never received the request: {parts_txt}", describe(p));
+        }
+    }
+
+    // ---- the hub is alive at the end: it answers a Status from a fresh client, truthfully
+    if final_status.finals.is_empty() {
+        fail!("C09/hub-dead-at-end", "a fresh client's Status after the scenario got no final answer: {}", final_status.broken.clone().unwrap_or_default());
+    }
+    if final_status.finals.len() > 1 {
+        fail!("C09/two-final-answers:status", "the closing Status got {} final answers", final_status.finals.len());
+    }
+    {
+        let (fin, _) = &final_status.finals[0];
+        let infos = match (&fin.content, fin.status == ResponseStatus::Ok as i32) {
+            (Some(ResponseContent { content_type: Some(ContentType::Workers(infos)) }), true) => infos,
+            _ => fail!("C09/final-status-wrong", "the closing Status (every live worker answers Ok at once) came back {} {:?}", status_of(fin), fin.message),
+        };
+        for wi in 0..w {
+            let got: Vec<i32> = infos.vec.iter().filter(|i| i.id == wi as u32).map(|i| i.run_state).collect();
+            let want = if closed_before_stop[wi] { RunState::Stopped } else { RunState::Running } as i32;
+            let answered_ok = records[wi]
+                .closing_status_key
+                .as_ref()
+                .and_then(|k| records[wi].sent.get(k))
+                .map(|v| v.iter().any(|(k, _)| *k == SentKind::Ok))
+                .unwrap_or(false);
+            if got != vec![want] && !closed_before_stop[wi] && answered_ok && got == vec![RunState::NotAnswering as i32] {
+                fail!("C09/answers-dropped:closing-status", "closing Status: worker {wi} answered Ok at once but is reported NotAnswering");
+            }
+            if got != vec![want] {
+                fail!(
+                    "C09/final-status-wrong",
+                    "closing Status: worker {wi} (channel closed: {}) is reported {:?}, expected {}",
+                    closed_before_stop[wi],
+                    got.iter().map(|g| run_state_name(*g)).collect::<Vec<_>>(),
+                    run_state_name(want)
+                );
+            }
+        }
+    }
+
+    // ---- the stop verb: one final answer, the verdict, and run() returns
+    let stop_desc = format!(
+        "{} [{}]",
+        if case.stop.soft { "SoftStop" } else { "HardStop" },
+        stop_behs.iter().enumerate().map(|(i, b)| format!("w{i}:{:?}", b.beh)).collect::<Vec<_>>().join(" ")
+    );
+    rep.excluded_known += stop_excluded;
+    let stop_parts: Vec<WorkerPart> = (0..w)
+        .map(|wi| {
+            let rec = &records[wi];
+            if closed_before_stop[wi] {
+                return WorkerPart::DeadBefore;
+            }
+            if rec.received.get("stop").is_none() {
+                return WorkerPart::NotAsked;
+            }
+            if stop_behs[wi].beh.is_good() { WorkerPart::Good } else { WorkerPart::Bad(stop_behs[wi].beh) }
+        })
+        .collect();
+    let stop_bad = stop_parts.iter().any(|x| matches!(x, WorkerPart::Bad(_)));
+    if stop_out.finals.is_empty() {
+        fail!("C09/no-final-answer:stop", "{stop_desc}: {} ({stop_parts:?})", stop_out.broken.clone().unwrap_or_default());
+    }
+    if stop_out.finals.len() > 1 {
+        fail!(
+            "C09/two-final-answers:stop",
+            "{stop_desc}: {:?}",
+            stop_out.finals.iter().map(|(r, _)| format!("{} {:?}", status_of(r), r.message)).collect::<Vec<_>>()
+        );
+    }
+    if hub_stuck || hub_exit.is_none() {
+        fail!(
+            "C09/hub-does-not-stop",
+            "{stop_desc} ({stop_parts:?}): run() had not returned 3 s after the stop verb was answered ({:?} after it was sent); a later HardStop {}",
+            stop_sent.elapsed(),
+            if hub_exit.is_some() { "ended it" } else { "did not end it either" }
+        );
+    }
+    {
+        let (fin, _) = &stop_out.finals[0];
+        let is_ok = fin.status == ResponseStatus::Ok as i32;
+        let has_dup = (0..w).any(|wi| stop_behs[wi].beh == Beh::DuplicateOk && stop_parts[wi] == WorkerPart::Good);
+        if stop_bad && is_ok {
+            let worst_failure = stop_parts.iter().any(|x| *x == WorkerPart::Bad(Beh::Failure));
+            let what = if has_dup { "duplicate-ok-masks-other-worker" } else if worst_failure { "ok-despite-failure" } else { "ok-despite-unanswered" };
+            fail!(format!("C09/{what}:stop"), "{stop_desc}: the final answer is Ok {:?} although {stop_parts:?}", fin.message);
+        }
+        if !stop_bad && !is_ok {
+            fail!("C09/false-failure:stop", "{stop_desc}: every live worker acknowledged ({stop_parts:?}) but the final answer is Failure {:?}", fin.message);
+        }
+    }
+
+    // ---- measurement
+    let total_reqs: usize = case.clients.iter().map(|c| c.len()).sum();
+    let mut non_ok = 0;
+    for p in &planned {
+        for b in &p.behs {
+            if b.beh != Beh::Ok {
+                non_ok += 1;
+                rep.classes.push(format!("beh:{:?}", b.beh));
+            }
+        }
+        rep.classes.push(format!("verb:{}", p.verb.class().name()));
+    }
+    for b in &stop_behs {
+        if b.beh != Beh::Ok {
+            non_ok += 1;
+            rep.classes.push(format!("stopbeh:{:?}", b.beh));
+        }
+    }
+    rep.class_if(stop_behs.iter().any(|b| b.beh != Beh::Ok), "stopbeh_non_ok");
+    rep.classes.sort();
+    rep.classes.dedup();
+    let concurrent = case.clients.len() >= 2;
+    rep.nontrivial = non_ok >= 1 && (concurrent || w >= 2);
+    rep.class(format!("workers:{w}"));
+    rep.class(format!("clients:{}", case.clients.len()));
+    rep.class_if(concurrent, "concurrent_clients");
+    rep.class_if(total_reqs >= 3, "requests>=3");
+    rep.class_if(saw_failure_verdict, "verdict:failure");
+    rep.class_if(saw_ok_verdict, "verdict:ok");
+    rep.class_if(ambiguous_reqs > 0, "request_not_judged:worker_closed_around_dispatch");
+    rep.class_if(slack_reqs > 0, "request_not_judged:harness_slack");
+    rep.class_if(notices_after_final > 0, "notice_after_final");
+    rep.class_if(closed_before_stop.iter().any(|c| *c), "a_worker_channel_closed");
+    rep.class_if(case.stop.soft, "stop:soft");
+    rep.class_if(!case.stop.soft, "stop:hard");
+    rep.class_if(case.strict, "strict");
+    rep.inner_evaluations = judged;
+    Ok(rep)
+}
+
+pub fn run(args: &Args) -> i32 {
+    let mut ev = Evidence::new(args, "exploration");
+    ev.rule(
+        "hub",
+        "one scenario per case: a real CommandHub::run() in a thread (worker_timeout 1 s, no automatic restart) on a private unix socket, 1..3 fake workers registered through Server::register_worker (socket pairs, scripted per (worker, request): Ok, Failure, Silent, CloseChannel, DuplicateOk, LateOk at +2.5 s, ProcessingThenOk, ProcessingOnly, UnknownId; in-time answers delayed 0/20/60 ms), 1..3 concurrent clients each sending 1..2 requests in sequence (AddCluster, AddBackend, QueryClusterById, QueryClustersHashes, Status, LoadState of a generated 1..2-request file; pauses 0/20/60 ms), then a Status from a fresh client and a scripted HardStop/SoftStop (judged like a request). Oracle per request: exactly one final Response within 4 s (none after it for 300 ms), mentioning only its own tag; Ok iff every worker that received it sent a terminal Ok in time (workers whose channel closed >= 300 ms before it was sent are not counted; requests racing with a channel close are not judged); Status: Ok with a per-worker run state that tells the truth; closing Status truthful; run() returns within 3 s of the stop answer; hub thread never panics. Non-trivial: >= 1 non-Ok behaviour and (>= 2 clients or >= 2 workers); distinct by case hash.",
+    );
+    ev.assume("fake workers, not forked ones: upgrade_worker / launch_new_worker / automatic restart are not reached; the accounting, routing and timeout code of the hub is the real one");
+    ev.assume("a client sends its next request only after the final answer of the previous one (a Response carries no request id); concurrency is across clients");
+    ev.assume("Status and QueryClustersHashes carry no content, so only client 0 sends Status and only client 1 sends QueryClustersHashes: the fake workers attribute them by arrival order");
+    ev.assume("Status is judged on its per-worker content (Ok + a truthful run state per worker is accepted), not on Ok/Failure alone, unless the case sets strict_status");
+    ev.assume("timing margins: in-time answers leave within 80 ms (+ scheduling; a request whose answer left > 600 ms after it was sent is not judged), late ones at >= 2.5 s, worker timeout 1 s");
+    ev.assume("two known findings are excluded by construction (load_state and SoftStop scatter without a timeout): on a LoadState a worker always sends a terminal answer (Silent / LateOk / ProcessingOnly / UnknownId / CloseChannel are played as Failure), a worker does not close its channel on any request while another client sends a LoadState (played as Failure), nor on SoftStop (played as Ok); the replaced behaviours are counted in excluded_known; cases with `strict` (regression files only) play them and fail with C09/no-final-answer:loadstate / C09/no-final-answer:stop");
+    if args.replay.is_none() {
+        ev.floor("hub", "concurrent_clients", 0.4);
+        ev.floor("hub", "verdict:failure", 0.15);
+        ev.floor("hub", "verdict:ok", 0.3);
+        ev.floor("hub", "workers:2", 0.15);
+        ev.floor("hub", "workers:3", 0.15);
+        ev.floor("hub", "beh:Failure", 0.2);
+        ev.floor("hub", "beh:ProcessingThenOk", 0.1);
+        ev.floor("hub", "beh:Silent", 0.05);
+        ev.floor("hub", "beh:LateOk", 0.05);
+        ev.floor("hub", "beh:DuplicateOk", 0.1);
+        ev.floor("hub", "beh:CloseChannel", 0.05);
+        ev.floor("hub", "beh:ProcessingOnly", 0.05);
+        ev.floor("hub", "beh:UnknownId", 0.05);
+        ev.floor("hub", "stopbeh_non_ok", 0.3);
+        ev.floor("hub", "verb:mutating", 0.3);
+        ev.floor("hub", "verb:query", 0.3);
+        ev.floor("hub", "verb:loadstate", 0.15);
+        ev.floor("hub", "verb:status", 0.1);
+    }
+    let cases = args.cases(450, 7500);
+    engine::run_pbt(&mut ev, args, "hub", cases, strategy, check);
+    ev.finish()
 }
